@@ -327,7 +327,10 @@ pub fn cmd_stress(args: &[String]) -> i32 {
         let res = rt.block_on(async move {
             let prod = tokio::spawn(async move {
                 for i in 1..=n {
-                    tx.modify(|slot| slot.get_or_insert_with(Vec::new).push(i)).unwrap();
+                    // a failing modify (the consumer is gone: it was told None too early) is data: the record then lacks updates
+                    if tx.modify(|slot| slot.get_or_insert_with(Vec::new).push(i)).is_err() {
+                        break;
+                    }
                     if (yield_mask >> (i % 32)) & 1 == 1 {
                         tokio::task::yield_now().await;
                     }
